@@ -47,7 +47,7 @@ def inversion_mask(rng, ky, kx, max_unmasked=40, min_unmasked=4):
 
 
 def imaging_case(aa, rng, kshapes=(1, 3, 5), kernel_kind=None, data_kind=None, sub_max=2, max_unmasked=36,
-                 use_normalized_psf=None, over_sampling=True):
+                 use_normalized_psf=None, over_sampling=True, noise_scale_range=(1e-3, 1e4)):
     ky, kx = int(rng.choice(kshapes)), int(rng.choice(kshapes))
     m, fam = inversion_mask(rng, ky, kx, max_unmasked=max_unmasked)
     ps, origin = gen.mild_scales_origin(rng)
@@ -67,7 +67,7 @@ def imaging_case(aa, rng, kshapes=(1, 3, 5), kernel_kind=None, data_kind=None, s
     else:
         d = rng.normal(size=(H, W)) * 30
     # noise level spans raw-count to normalised units: absolute thresholds on noise-weighted terms become visible
-    noise_scale = float(np.exp(rng.uniform(np.log(1e-3), np.log(1e4)))) if rng.random() < 0.4 else 1.0
+    noise_scale = float(np.exp(rng.uniform(np.log(noise_scale_range[0]), np.log(noise_scale_range[1])))) if rng.random() < 0.4 else 1.0
     noise = rng.uniform(0.3, 3.0, size=(H, W)) * noise_scale
     d = d * (noise_scale if rng.random() < 0.7 else 1.0)
     data = aa.Array2D(values=d.copy(), mask=mask)
